@@ -32,6 +32,9 @@ def gen_rate(rng, states, params, kinds, derived_ok=True):
         return "%s*%s/(%s+%s)" % (p, X, q, X), k, None
     if k == "exponential":
         return "%s*%s*exp(-%s*%s/7)" % (p, X, q, Y), k, None
+    if k == "freqdep":
+        # a derived parameter that is a function of the STATES (total population): d/dx goes through it by the chain rule
+        return "%s*%s*%s/Ntot" % (p, X, Y), k, ("Ntot", "+".join(states))
     if k == "periodic":
         # time may only enter through a derived parameter
         name = "f%s" % p
@@ -42,7 +45,7 @@ def gen_rate(rng, states, params, kinds, derived_ok=True):
     raise ValueError(k)
 
 
-ALL_KINDS = ["linear", "linear", "massaction", "massaction2", "saturating", "exponential", "periodic", "const"]
+ALL_KINDS = ["linear", "linear", "massaction", "massaction2", "saturating", "exponential", "periodic", "const", "freqdep"]
 BOUNDED_KINDS = ["linear", "linear", "massaction", "saturating", "const"]
 JUMP_KINDS = ["linear", "linear", "massaction1", "saturating", "const"]
 
@@ -89,6 +92,8 @@ def gen_definition(rng, kinds=ALL_KINDS, max_states=5, max_events=5, max_trans=3
     if odes and rng.random() < 0.35:
         for _ in range(int(rng.integers(1, 3))):
             rate, kind, der = gen_rate(rng, states, params, [k for k in kinds if k != "periodic"])
+            if der:
+                derived[der[0]] = der[1]
             sign = "-" if rng.random() < 0.5 else ""
             ode_terms.append(dict(state=int(rng.integers(0, nS)), eqn=sign + rate))
     decl = ["list", "comma", "space", "range"][int(rng.integers(0, 4))]
